@@ -38,7 +38,7 @@ def readLines (e : Enc) (ops : List Op) (obj : ObjId) : List String :=
   | some _ =>
     let len := lengthWith gOne e ops obj
     let marks := marksOf (wfOf e .text) ops obj
-    let gm := (List.range (len + 1)).map (fun i => showSet (getMarksAt ops obj i))
+    let gm := (List.range (len + 1)).map (fun i => showSet (getMarksAt (wfOf e .text) ops obj i))
     let spans := spansOf (widthWith gOne e) ops obj
     [ s!"len {len}",
       s!"text {hx (textOf ops obj)}",
